@@ -8,11 +8,12 @@ from .. import nodegen
 
 ID = "C12"
 SUITES = ["table", "node"]
-LEAN_MODULES = ["VpnCloud.Proofs.C12", "VpnCloud.Proofs.C12Node", "VpnCloud.Proofs.TableRefine", "VpnCloud.Proofs.GuardsUsed"]
+LEAN_MODULES = ["VpnCloud.Proofs.C12", "VpnCloud.Proofs.C12Node", "VpnCloud.Proofs.TableRefine", "VpnCloud.Proofs.GuardsUsed", "VpnCloud.Proofs.C12More"]
 THEOREMS = ["VpnCloud.Proofs.C12." + n for n in ("setClaims_exact", "removeClaims_clears", "housekeep_spec", "lookup_result_mem", "removed_peer_unreachable", "claims_expire")] + [
             "VpnCloud.Proofs.C12Node.tablePeers_handleNet", "VpnCloud.Proofs.C12Node.tablePeers_handleIface", "VpnCloud.Proofs.C12Node.tablePeers_housekeep", "VpnCloud.Proofs.C12Node.tablePeers_connect", "VpnCloud.Proofs.C12Node.next_hop_is_peer", "VpnCloud.Proofs.C12Node.iface_finds_peer", "VpnCloud.Proofs.C12Node.table_points_to_peers", "VpnCloud.Proofs.C12Node.table_points_to_peers'"]
 THEOREMS = THEOREMS + ["VpnCloud.Proofs.TableRefine." + n for n in ('table_refines', 'claims_are_last_announcement', 'disconnected_peer_unreachable', 'history_split', 'duplicate_announce_flushes', 'refinement_fails_at_zero')]
 THEOREMS = THEOREMS + ["VpnCloud.Proofs.GuardsUsed." + n for n in ('claimLive_boundary',)]
+THEOREMS = THEOREMS + ["VpnCloud.Proofs.C12More." + n for n in ('timeout_removes_routes', 'close_removes_routes', 'failed_session_removes_routes', 'superseding_handshake_replaces_claims', 'peers_only_leave_by', 'announcement_sets_claims', 'keepalive_keeps_claims', 'claims_expire_node', 'lookup_hit_is_sent_or_unsealable')]
 BATCH = 200
 SEARCH_BUDGET_S = 300
 RULE = ("suite table: announcement sequences of one peer over all subsets and orders of a 4-claim universe (grow, shrink, permute, "
